@@ -11,7 +11,7 @@ compiler's analyses) nor return nothing.  Nothing is asserted about rejected pro
 """
 PROPERTY = 'C15'
 LEVEL = 'model_checking'
-BUDGET_S = {'quick': 1200, 'thorough': 10800}
+BUDGET_S = {'quick': 3600, 'thorough': 14400}
 
 CHUNK = 350
 EXHAUSTIVE = {'quick': 3, 'thorough': 4}
